@@ -143,6 +143,9 @@ def run(rep, tier, driver):
         [c["iupac"] for c in cases[:120]]
     rng.shuffle(enames)
     enumx.run(rep, tier, driver, enames)
+    # the Lean Model of find_oxygen / root_atom_id / __check_root_id (the choice of the linking hetero atom) against monomer.py
+    import oxyx
+    oxyx.run(rep, tier, driver, [c["iupac"] for c in cases if c.get("size", 0) <= 8] + ["Man(a1-6)Glc6P", "Man(a1-6)Glc6EtN", "Gal(b1-2)RhaNPro", "Kdo(a2-6)GlcN4P", "Gal(b1-3)GlcN2S"])
 
 
 def merge_correspondence(rep, tier, driver, cases, outs):
